@@ -792,9 +792,33 @@ class Guards:
         self.body = body
         O = T.origins(body)
         self.guards = []
+        # call-site leaf -> blocks of the matching call sites (to recognise results of a *later* call: a comparison that
+        # runs before the call on every path - a loop header testing the value carried over from the previous
+        # iteration - says nothing about the result the call returns this time)
+        self.call_blocks = {}
+        for cs in body.calls():
+            if cs.callee:
+                self.call_blocks.setdefault("call:%s@%s" % (X.short(cs.callee), cs.loc()), set()).add(cs.bb)
         for bb, t in body.switches():
             ex = O.switch_cond(bb)
             self._collect(bb, ex)
+        for g in self.guards:
+            g.L = self._fresh(g.bb, g.L)
+            g.R = self._fresh(g.bb, g.R)
+
+    def _fresh(self, bb, ls):
+        out = set()
+        stale = []
+        for l in ls:
+            blocks = self.call_blocks.get(l) if l.startswith("call:") else None
+            if blocks and all(c != bb and self.body.dominates(bb, c) for c in blocks):
+                stale.append(l[len("call:"):].rsplit("@", 1)[0] + "(")      # stale: value of an earlier loop iteration
+                continue
+            out.add(l)
+        if stale:
+            # projections of a stale call result are stale as well
+            out = {l for l in out if not (l.startswith("field:") and any(nm in l for nm in stale))}
+        return out
 
     def _add(self, bb, kind, op, l, r, text, direct=False, negated=False):
         g = Guard()
